@@ -77,6 +77,12 @@ func isTestFile(e *Engine, f *ssa.Function) bool {
 	if !f.Pos().IsValid() {
 		return false
 	}
+	// test support packages (channel/test, wallet/test, ...) are test code outside _test.go files
+	if f.Pkg != nil {
+		if pp := f.Pkg.Pkg.Path(); strings.HasSuffix(pp, "/test") || strings.Contains(pp, "/test/") {
+			return true
+		}
+	}
 	return strings.HasSuffix(e.Fset.Position(f.Pos()).Filename, "_test.go")
 }
 
